@@ -240,7 +240,13 @@ def check(ctx, stmts, workload="gen"):
             w4 = {**wit, **res4[2]}
             for mech, msg in snapshot.compare_tables(res4[0], exp) + [x for x in snapshot.compare_globals(res4[0], exp) if x[0].startswith(("globals:dict_definitions", "globals:dict_model_aliases"))]:
                 ctx.violate("part-files:" + mech, msg, w4)
-    elif twin < 0.45:
+    elif twin < 0.35:
+        # the first parse() of a fresh object is abandoned somewhere in the library (Ctrl-C), the object is parsed again: the same tables
+        ok6, p6 = ctx.guard("parse-after-abandoned-parse", wit, snapshot.parse_after_an_interrupted_parse, ctx, text, um)
+        if ok6 and p6 is not None:
+            for mech, msg in snapshot.compare_tables(p6, exp):
+                ctx.violate("after-an-abandoned-parse:" + mech, msg, wit)
+    elif twin < 0.5:
         # a fresh object parsing the same text while warnings are errors: either the warning surfaces, or the tables are the same ones
         ok5, p5 = ctx.guard("parse-under-error-filter", wit, snapshot.parse_under_error_filter, text, um)
         if ok5 and p5 is not None:
